@@ -8,6 +8,7 @@ import (
 	"os"
 	"sort"
 	"sync"
+	"sync/atomic"
 
 	"perkeep.org/pkg/blob"
 	"perkeep.org/pkg/blobserver"
@@ -146,9 +147,54 @@ func (s *SimStore) Fetch(ctx context.Context, br blob.Ref) (io.ReadCloser, uint3
 			b = c
 		}
 	case FWrongSize:
-		return io.NopCloser(bytes.NewReader(b)), uint32(len(b)) + 1, nil
+		return body(b), uint32(len(b)) + 1, nil
 	}
-	return io.NopCloser(bytes.NewReader(b)), uint32(len(b)), nil
+	return body(b), uint32(len(b)), nil
+}
+
+// readerMode: see harness.Plan.Reader. One value per run (worker processes
+// execute runs one after the other).
+var readerMode atomic.Value
+
+// SetReaderMode selects how the bodies of Fetch and SubFetch behave as Readers.
+func SetReaderMode(m string) { readerMode.Store(m) }
+
+// body wraps stored bytes as the reader a fetch hands out.
+func body(b []byte) io.ReadCloser {
+	m, _ := readerMode.Load().(string)
+	switch m {
+	case "eof":
+		return io.NopCloser(&quirkReader{b: b})
+	case "short":
+		return io.NopCloser(&quirkReader{b: b, max: 1 + len(b)/3})
+	}
+	return io.NopCloser(bytes.NewReader(b))
+}
+
+// quirkReader returns its last bytes together with io.EOF and, with max > 0,
+// at most max bytes per call.
+type quirkReader struct {
+	b   []byte
+	max int
+}
+
+func (q *quirkReader) Read(p []byte) (int, error) {
+	if len(p) == 0 {
+		return 0, nil
+	}
+	n := len(q.b)
+	if n > len(p) {
+		n = len(p)
+	}
+	if q.max > 0 && n > q.max {
+		n = q.max
+	}
+	copy(p, q.b[:n])
+	q.b = q.b[n:]
+	if len(q.b) == 0 {
+		return n, io.EOF
+	}
+	return n, nil
 }
 
 type errReader struct{ err error }
@@ -186,7 +232,7 @@ func (s *SimStore) SubFetch(ctx context.Context, br blob.Ref, offset, length int
 			part = c
 		}
 	}
-	return io.NopCloser(bytes.NewReader(part)), nil
+	return body(part), nil
 }
 
 func (s *SimStore) ReceiveBlob(ctx context.Context, br blob.Ref, source io.Reader) (blob.SizedRef, error) {
